@@ -545,7 +545,7 @@ func runC08(c *Ctx) {
 func runC06(c *Ctx) {
 	n := 30
 	if !c.Quick() {
-		n = 800
+		n = 4000
 	}
 	fam := filterFamily()
 	runs := 0
